@@ -662,15 +662,17 @@ impl Cache {
                         let mut tmp = get_tempfile()?;
 
                         match populate(&mut tmp, None) {
-                            Err(e) if e.kind() == ErrorKind::NotFound => {
-                                return Ok(file);
+                            // `NotFound` only skips the comparison: a
+                            // `Promote`d hit must still be copied to
+                            // the write cache below.
+                            Err(e) if e.kind() == ErrorKind::NotFound => {}
+                            ret => {
+                                ret?;
+                                tmp.seek(SeekFrom::Start(0))?;
+                                checker(&mut file, &mut tmp)?;
+                                file.seek(SeekFrom::Start(0))?;
                             }
-                            ret => ret?,
                         };
-
-                        tmp.seek(SeekFrom::Start(0))?;
-                        checker(&mut file, &mut tmp)?;
-                        file.seek(SeekFrom::Start(0))?;
                     }
 
                     return if matches!(j, CacheHitAction::Accept) {
